@@ -28,6 +28,18 @@ def rand_pool(rng):
         for t, use in rng.sample(menu, rng.choice([2, 3, 4])):
             schemas.append({"text": t, "types": [], "use_shared": use} if use is not None else {"text": t, "types": []})
     docs = [J.print_doc(J.rand_doc(rng, 2), rng) for _ in range(2)] + ['{"a":1}', "[1, 2", ""]
+    if not shared and rng.random() < 0.3:
+        # the same type NAMES with different meanings in different schemas of the pool (each schema has its own type objects): key types of key shortcuts and
+        # value types; anything remembered per name across schemas shows up as a verdict that depends on which schema was asked first
+        kdefs = rng.sample(['"ab" // {regex: "^[a-z]+$"}', '"12" // {regex: "^[0-9]+$"}', '"x" // {minLength: 1, maxLength: 1}', '"k" // {enum: ["k", "ab"]}'], 2)
+        vdefs = rng.sample(["1 // {min: 0}", '"s"', "true", "1.5"], 2)
+        schemas = [{"text": '{\n  @key: @val\n}', "types": [["@key", kdefs[i]], ["@val", vdefs[i]]]} for i in range(2)]
+        if rng.random() < 0.5:
+            schemas.append({"text": '{\n  "p": {\n    @key: 1 // {optional: true}\n  }\n}', "types": [["@key", rng.choice(kdefs)]]})
+        kd = ['"ab"', '"12"', '"x"', '"k"', '"zz9"']
+        vd = ["1", "-1", '"s"', "true", "1.5"]
+        docs = ['{%s: %s}' % (rng.choice(kd), rng.choice(vd)) for _ in range(5)] + ['{"ab": 1, "12": "s"}', '{"p": {"ab": 1}}', '{"p": {"12": 1}}', "{}"]
+        return {"schemas": schemas, "shared_types": [], "docs": docs, "enums": ['[1, 2]'], "regexes": ["/a/"], "validate_heavy": True, "samename": [kdefs, vdefs]}
     if shared:
         docs = ['{"a":1}', '{"a":1,"b":2}', '{"b":2}', '{"x":{"a":1}}', '[{"a":1,"b":2},{"a":1}]', '{"p":{"a":1},"q":{"b":2}}', ""]
     enums = [rng.choice(['[1, 2, "a"]', '[\n  "x", // c\n  null\n]', "[1, 1]", "[1"])]
@@ -35,13 +47,35 @@ def rand_pool(rng):
     return {"schemas": schemas, "shared_types": shared, "docs": docs, "enums": enums, "regexes": regexes}
 
 
+def samename_oracle(pool, ops):
+    """expected verdicts of validate on the two `{@key: @val}` schemas of a same-name pool, from the schema's OWN definitions (a verdict remembered per type
+    name across schemas would contradict it); None = not judged"""
+    import re
+    kdefs, vdefs = pool["samename"]
+    kok = {'"ab" // {regex: "^[a-z]+$"}': lambda k: re.fullmatch("[a-z]+", k) is not None, '"12" // {regex: "^[0-9]+$"}': lambda k: re.fullmatch("[0-9]+", k) is not None,
+           '"x" // {minLength: 1, maxLength: 1}': lambda k: len(k) == 1, '"k" // {enum: ["k", "ab"]}': lambda k: k in ("k", "ab")}
+    vok = {"1 // {min: 0}": lambda v: re.fullmatch("[0-9]+", v) is not None, '"s"': lambda v: v.startswith('"'), "true": lambda v: v in ("true", "false"),
+           "1.5": lambda v: re.fullmatch(r"-?[0-9]+(\.[0-9]+)?", v) is not None}
+    out = []
+    for op in ops:
+        exp = None
+        if op[0] == "validate" and op[1] < 2:
+            m = re.fullmatch(r'\{"([a-z0-9]+)": ([^,{}]+)\}', pool["docs"][op[2]])
+            if m:
+                exp = "ok" if kok[kdefs[op[1]]](m.group(1)) and vok[vdefs[op[1]]](m.group(2)) else "err"
+            elif pool["docs"][op[2]] == "{}":
+                exp = "err"
+        out.append(exp)
+    return out
+
+
 def rand_ops(rng, pool, n):
     ops = []
     for _ in range(n):
         r = rng.random()
         si = rng.randrange(len(pool["schemas"]))
-        if r < 0.55 or (pool.get("shared_types") and r < 0.9):
-            name = rng.choice(["check", "len", "example", "ast", "used", "validate", "validate", "example"] + (["validate"] * 6 if pool.get("shared_types") else []))
+        if r < 0.55 or ((pool.get("shared_types") or pool.get("validate_heavy")) and r < 0.9):
+            name = rng.choice(["check", "len", "example", "ast", "used", "validate", "validate", "example"] + (["validate"] * 6 if (pool.get("shared_types") or pool.get("validate_heavy")) else []))
             ops.append([name, si, rng.randrange(len(pool["docs"]))] if name == "validate" else [name, si])
         elif r < 0.7:
             ops.append([rng.choice(["dcheck", "dlen"]), rng.randrange(len(pool["docs"]))])
@@ -75,7 +109,7 @@ def run(ctx):
     for _ in range(n):
         pool = rand_pool(rng)
         ops = rand_ops(rng, pool, rng.randint(3, 12))
-        cases.append(dict(pool, ops=ops))
+        cases.append(dict(pool, ops=ops, oracle=samename_oracle(pool, ops)) if pool.get("samename") else dict(pool, ops=ops))
     # one type object with an allOf parent, shared by two schemas that define the parent differently (each privately): what the child inherits in one schema must not
     # depend on the other schema having been compiled before
     for _ in range(40 if quick else 400):
@@ -159,7 +193,7 @@ def run(ctx):
             exp = (c.get("oracle") or [None] * len(c["ops"]))[k]
             if exp is not None and (exp == "ok") != (h.split("#")[0] == "ok"):
                 if len(ctx.violations) < 40:
-                    ctx.report("operation %s returns %s, the pattern of that schema's own regex type says %s (another schema of the process has a regex type of the same name)" % (op, h[:60], exp),
+                    ctx.report("operation %s returns %s, that schema's own type definitions say %s (another schema of the process has a type of the same name)" % (op, h[:60], exp),
                                "c11o:" + l + str(k), info, case=info)
                 break
             if h != f:
